@@ -1,6 +1,7 @@
 """Miscellaneous utilities."""
 
 import functools
+import math
 import re
 import typing
 from itertools import count
@@ -130,7 +131,11 @@ class NameDatabase:
         return name
 
     def __getitem__(self, value):
-        if isinstance(value, (int, float, str)):
+        if type(value) in (int, str) or (
+            type(value) is float and math.isfinite(value)
+        ):
+            # Only values whose repr is a literal for an equal value of the
+            # same type are written into the code (not enum members, inf, nan)
             return repr(value)
         if id(value) in self.names:
             return self.names[id(value)]
